@@ -1088,6 +1088,17 @@ def _body_facts(self):
     facts = []
     for bb, ct, edges in self.branch_facts():
         c = deep_strip(ct)
+        # a target reached for several values (`0 | 1 => ..`, or a listed value sharing the otherwise target) is reached under their
+        # disjunction: no single value is known there, and facts are keyed by CFG edge
+        ntgt = {}
+        for (tgt, _truth) in edges:
+            ntgt[tgt] = ntgt.get(tgt, 0) + 1
+        shared = {t_ for t_, k_ in ntgt.items() if k_ > 1}
+        all_edges = edges
+        if shared:
+            edges = [(t_, v_) for (t_, v_) in edges if t_ not in shared]
+            if not edges:
+                continue
         for (tgt, truth) in edges:
             if truth is None:
                 continue
@@ -1143,14 +1154,14 @@ def _body_facts(self):
         if edges and edges[-1][1] is None and c[0] == 'discr':
             oc = deep_strip(c[1])
             if oc[0] == 'call' and len(oc[2]) == 2 and canon(oc[1]).split("::")[-1] == "cmp" and re.search(r"\bOrd\b", str(oc[1])):
-                left = {"Lt", "Eq", "Gt"} - {_ORDERING[v] for _t, v in edges[:-1] if v in _ORDERING}
+                left = {"Lt", "Eq", "Gt"} - {_ORDERING[v] for _t, v in all_edges[:-1] if v in _ORDERING}
                 op = {frozenset(["Lt"]): "Lt", frozenset(["Eq"]): "Eq", frozenset(["Gt"]): "Gt", frozenset(["Lt", "Eq"]): "Le",
                       frozenset(["Gt", "Eq"]): "Ge", frozenset(["Lt", "Gt"]): "Ne"}.get(frozenset(left))
                 if op:
                     facts.append({"u": bb, "v": edges[-1][0], "rel": ('cmp', op, _unref(oc[2][0]), _unref(oc[2][1]))})
         # the otherwise edge of a non-bool switch: value differs from every listed one
         if edges and edges[-1][1] is None:
-            for (tgt, val) in edges[:-1]:
+            for (tgt, val) in all_edges[:-1]:
                 if c[0] != 'discr':
                     facts.append({"u": bb, "v": edges[-1][0], "rel": ('cmp', 'Ne', c, ('const', val))})
     self._facts = facts
